@@ -77,6 +77,12 @@ class _Future(Future):
                     return False
             finally:
                 self._me_cancelling = False
+            if self.done():
+                # Cancelling the delegate ran its callbacks on this thread, and
+                # one of them re-entered cancel() (our lock is re-entrant) or
+                # otherwise completed this future: it is finished and its
+                # callbacks have been invoked, nothing is left to do here.
+                return self.cancelled()
             out = super(_Future, self).cancel()
             if out:
                 self.set_running_or_notify_cancel()
